@@ -116,4 +116,27 @@ def textsPerAccount : AddrKind → TextsPerAccount
   | .tron => .several
   | .other => .one
 
+/-- what a `ClaimHash` built from the TYPED accessors of a bridge call (`GetSenderAddr()`, `GetRefundAddr()`, `GetToAddr()`,
+`GetTokensAddr()`) would hash in place of the four address texts: the accounts -/
+def typedAddrs (k : AddrKind) (c : MsgBridgeCallClaim) : List (List Nat) :=
+  [extHex k c.Sender, extHex k c.Refund, extHex k c.To] ++ c.TokenContracts.map (extHex k)
+
+/-- the VALUE a handler receives through one entry of the regenerated `handlerView`: an entry of the shape
+`GetXAddr(){ExternalAddrToHexAddr#class,X}` (leaves: the address class of the claim's chain and the text) evaluates to the
+account bytes; every other entry hands over its leaves as they are -/
+def isPrefix : Str → Str → Bool
+  | [], _ => true
+  | _ :: _, [] => false
+  | a :: p, b :: s => a == b && isPrefix p s
+
+def hasInfix (p : Str) : Str → Bool
+  | [] => p.isEmpty
+  | b :: s => isPrefix p (b :: s) || hasInfix p s
+
+def entryValue (e : HEntry) : List HLeaf ⊕ List Nat :=
+  match e.vals with
+  | [.kind (some k), .str s] =>
+    if hasInfix "{ExternalAddrToHexAddr#class,".toList e.expr.toList then .inr (extHex k s) else .inl e.vals
+  | _ => .inl e.vals
+
 end FxVerif.Model.C03.Addr
